@@ -19,6 +19,9 @@ import (
 	"verifharness/kit"
 )
 
+// conctakeErr marks a Take that returned an error (no loader of this family fails).
+type conctakeErr struct{ err error }
+
 func concTakeCase(c *kit.Case) {
 	r := c.R
 	cache, err := collection.NewCache(time.Hour)
@@ -28,6 +31,7 @@ func concTakeCase(c *kit.Case) {
 	}
 	rounds := r.Range(20, 60)
 	lateLoads, loads, takes := 0, int64(0), int64(0)
+	var vs valStats
 	for round := 0; round < rounds && lateLoads == 0; round++ {
 		key := fmt.Sprintf("c%d-r%d", c.Index, round)
 		G := kit.Choose(r, []int{2, 3, 4, 8, 16})
@@ -40,7 +44,27 @@ func concTakeCase(c *kit.Case) {
 		var nLoads atomic.Int64
 		var mu sync.Mutex
 		var late []map[string]any
-		produced := map[int64]bool{}
+		// every loader run produces a value of its own, of a kind drawn per (round, goroutine): scalars, NaN,
+		// pointers, []byte, maps, funcs, structs with slice fields ... (values_test.go); results are matched
+		// with the produced values by identity / kind-aware comparison, never with == on interfaces
+		var produced []cval
+		kinds := make([]string, G)
+		for i := range kinds {
+			kinds[i] = kit.Choose(r, cvKinds)
+			if r.Chance(0.3) {
+				kinds[i] = "int"
+			}
+		}
+		wasProduced := func(v any) bool {
+			mu.Lock()
+			defer mu.Unlock()
+			for _, p := range produced {
+				if sameVal(v, p.v) {
+					return true
+				}
+			}
+			return false
+		}
 		got := make([]any, G)
 		start := make(chan struct{})
 		var wg sync.WaitGroup
@@ -61,14 +85,14 @@ func concTakeCase(c *kit.Case) {
 						late = append(late, map[string]any{"goroutine": g, "take_invoked_at": inv, "loader_called_at": s, "a_take_of_the_key_had_returned_at": fr})
 						mu.Unlock()
 					}
-					val := int64(g)*1000000 + n
+					val := mkFresh(kinds[g], g*1000+int(n))
 					mu.Lock()
-					produced[val] = true
+					produced = append(produced, val)
 					mu.Unlock()
 					for i := 0; i < loaderWork; i++ {
 						runtime.Gosched()
 					}
-					return val, nil
+					return val.v, nil
 				})
 				ret := kit.Stamp()
 				for {
@@ -81,7 +105,7 @@ func concTakeCase(c *kit.Case) {
 					}
 				}
 				if err != nil {
-					v = err
+					v = conctakeErr{err}
 				}
 				got[g] = v
 			}(g)
@@ -90,7 +114,10 @@ func concTakeCase(c *kit.Case) {
 		wg.Wait()
 		takes += int64(G)
 		loads += nLoads.Load()
-		w := map[string]any{"key": key, "goroutines": G, "loader_runs": nLoads.Load(), "results": fmt.Sprint(got)}
+		w := map[string]any{"key": key, "goroutines": G, "loader_runs": nLoads.Load(), "results": descrAll(got), "loader_value_kinds": kinds, "values_produced": fmt.Sprint(produced)}
+		for _, p := range produced {
+			vs.note(p)
+		}
 		if len(late) > 0 {
 			lateLoads += len(late)
 			w["late_loader_calls"] = late
@@ -98,21 +125,22 @@ func concTakeCase(c *kit.Case) {
 				fmt.Sprintf("Take(%s): a loader was called after another Take of the key had already returned its loaded value (nothing deleted, evicted or expired the key)", key), w)
 		}
 		for g, v := range got {
-			iv, ok := v.(int64)
-			if !ok || !produced[iv] {
-				c.Viol("C16/cache/take/result-not-loaded-by-anyone/concurrent-takes", fmt.Sprintf("Take(%s) in goroutine %d returned %v, which no loader of this round produced", key, g, v), w)
+			if _, isErr := v.(conctakeErr); isErr || !wasProduced(v) {
+				c.Viol("C16/cache/take/result-not-loaded-by-anyone/concurrent-takes", fmt.Sprintf("Take(%s) in goroutine %d returned %s, which no loader of this round produced", key, g, descr(v)), w)
 				break
 			}
+			vs.compared(v)
 		}
 		if v, ok := cache.Get(key); !ok {
 			c.Viol("C16/cache/get/live-key-missing/after-concurrent-takes", fmt.Sprintf("Get(%s) misses right after %d successful Takes", key, G), w)
-		} else if iv, _ := v.(int64); !produced[iv] {
-			c.Viol("C16/cache/get/not-latest-value/after-concurrent-takes", fmt.Sprintf("Get(%s) returned %v, which no loader of this round produced", key, v), w)
+		} else if !wasProduced(v) {
+			c.Viol("C16/cache/get/not-latest-value/after-concurrent-takes", fmt.Sprintf("Get(%s) returned %s, which no loader of this round produced", key, descr(v)), w)
 		}
 	}
 	c.Obs("conctake_rounds", int64(rounds))
 	c.Obs("conctake_takes", takes)
 	c.Obs("conctake_loader_runs", loads)
+	vs.obs(c, "conctake")
 	c.Evals(int64(rounds))
 	c.Sig(true, "conctake", c.Index)
 }
